@@ -40,6 +40,12 @@ func c01Round3(c *Ctx, cone []*ssa.Function) {
 						addr = u.X
 					}
 				}
+				if gl := globalRoot(addr); gl != nil && gl.Pkg != nil && strings.Contains(gl.Pkg.Pkg.Path(), "oasis-core/go/") {
+					// package-level variables are node-local memory as well
+					n++
+					hits = append(hits, hit{"global " + short(gl.Pkg.Pkg.Path()) + "." + gl.Name() + "<-" + name, c.P.InstrPos(in)})
+					continue
+				}
 				fa, ok := addr.(*ssa.FieldAddr)
 				if !ok {
 					continue
@@ -122,4 +128,27 @@ func nodeLocalOwner(fieldKey string) bool {
 		return true
 	}
 	return false
+}
+
+// globalRoot: the package-level variable an address is (a part of), or nil.
+func globalRoot(addr ssa.Value) *ssa.Global {
+	for d := 0; d < 6 && addr != nil; d++ {
+		switch x := addr.(type) {
+		case *ssa.Global:
+			return x
+		case *ssa.FieldAddr:
+			addr = x.X
+		case *ssa.IndexAddr:
+			addr = x.X
+		case *ssa.UnOp:
+			// a map or pointer loaded from a global: writes through it change what the global refers to
+			if g, ok := x.X.(*ssa.Global); ok {
+				return g
+			}
+			return nil
+		default:
+			return nil
+		}
+	}
+	return nil
 }
